@@ -106,3 +106,8 @@ add("C05", "c05", q, t)
 q, t = rapid_jobs(qshards=4, tshards=16, tscale=12)
 t["jobs"].append(fuzz_job("FuzzReplace", 120))
 add("C06", "c06", q, t)
+
+# ---- C18 algz dp / graph ----------------------------------------------------------------------
+q, t = rapid_jobs(qshards=4, tshards=16, tscale=6)
+add("C18", "c18", q, t)
+ASSUMPTIONS["C18"] = ["the code under test iterates Go maps, whose order the harness cannot control: every case is executed 5 times in the same process; a failure that depends on one particular iteration order may need several replays to reappear"]
